@@ -30,18 +30,28 @@ BadFlag == 9
 (******************************** the routines ********************************)
 LU    == {"Dgetrf", "Dgetf2", "Dgetrs", "Dgesv", "Dgetri"}
 Chol  == {"Dpotrf", "Dpotf2", "Dpotrs", "Dpotri"}
-QRf   == {"Dgeqrf", "Dgeqr2", "Dgelqf", "Dgelq2"}
-OrgQ  == {"Dorgqr", "Dorg2r", "Dorglq", "Dorgl2"}
-OrmQ  == {"Dormqr", "Dorm2r", "Dormlq", "Dorml2"}
+QRf   == {"Dgeqrf", "Dgeqr2", "Dgelqf", "Dgelq2", "Dgerqf"}
+OrgQ  == {"Dorgqr", "Dorg2r", "Dorglq", "Dorgl2", "Dorgql", "Dorg2l", "Dorgr2"}
+OrmQ  == {"Dormqr", "Dorm2r", "Dormlq", "Dorml2", "Dormr2"}
+\* Q with m >= n >= k (columns of reflectors: QR, QL) / n >= m >= k (rows of reflectors: LQ, RQ)
+OrgCol == {"Dorgqr", "Dorg2r", "Dorgql", "Dorg2l"}
+OrgRow == {"Dorglq", "Dorgl2", "Dorgr2"}
 Tri   == {"Dtrtri", "Dtrti2", "Dtrtrs"}
 Refl  == {"Dlarft", "Dlarfb", "Dlarf"}
 \* drivers and computational routines whose slice lengths depend on job flags and on max/min of the dimensions
-SqN   == {"Dsyev", "Dsytrd", "Dorgtr", "Dgeev", "Dtrcon", "Dgecon", "Dpocon", "Dlansy"}   \* one n x n matrix a, dimension n
-Hess  == {"Dgehrd", "Dorghr"}                                                            \* n, ilo, ihi
-GeMN  == {"Dgesvd", "Dgeqp3", "Dgebrd", "Dlacpy", "Dlaset", "Dlange", "Dlantr"}           \* m x n matrix a, dimensions m, n
-BandS == {"Dpbtrs", "Dtbtrs", "Dpbtrf"}                                                   \* band matrix with kd off-diagonals
-TriD  == {"Dgtsv", "Dptsv"}                                                               \* tridiagonal solves
-Drv   == SqN \cup Hess \cup GeMN \cup BandS \cup TriD \cup {"Dgels", "Dorgbr", "Dormbr", "Dormhr"}
+SqN   == {"Dsyev", "Dsytrd", "Dorgtr", "Dgeev", "Dtrcon", "Dgecon", "Dpocon", "Dlansy",
+          "Dlanhs", "Dsytd2", "Dlauu2", "Dlauum"}                                          \* one n x n matrix a, dimension n
+Hess  == {"Dgehrd", "Dorghr", "Dgehd2"}                                                  \* n, ilo, ihi
+GeMN  == {"Dgesvd", "Dgeqp3", "Dgebrd", "Dlacpy", "Dlaset", "Dlange", "Dlantr",
+          "Dlascl", "Dgeql2", "Dgerq2", "Dlapmt", "Dlapmr"}                               \* m x n matrix a, dimensions m, n
+BandS == {"Dpbtrs", "Dtbtrs", "Dpbtrf", "Dlansb", "Dlantb", "Dpbtf2", "Dpbcon"}                               \* band matrix with kd off-diagonals
+TriD  == {"Dgtsv", "Dptsv", "Dpttrs"}                                                     \* tridiagonal solves
+\* norm-type and auxiliary routines: the work slice is needed for some norms only, increments have a sign
+\* rule, an index slice must hold one entry per row / column
+TriN  == {"Dlangt", "Dlanst", "Dpttrf", "Dptcon", "Dsterf"}                                         \* n, the diagonals as vectors
+VecN  == {"Drscl", "Dlassq", "Dlasrt", "Dlarfg"}                                                    \* n, one vector
+Aux   == TriN \cup VecN \cup {"Dlangb", "Dlaswp"}
+Drv   == SqN \cup Hess \cup GeMN \cup BandS \cup TriD \cup Aux \cup {"Dgels", "Dorgbr", "Dormbr", "Dormhr"}
 LapackRoutines == LU \cup Chol \cup QRf \cup OrgQ \cup OrmQ \cup Tri \cup Refl \cup Drv
 
 \* flag kinds and their legal codes.  side: 0 Left 1 Right; trans: 0 NoTrans 1 Trans 2 ConjTrans
@@ -59,13 +69,16 @@ FlagKinds(r) ==
       [] r = "Dgels" -> <<"trans3">>
       [] r = "Dgesvd" -> <<"svdjobu", "svdjobvt">>            \* jobU, jobVT: 0 All 1 Store 2 None (Overwrite is not coded in gonum: not in the grid)
       [] r = "Dsyev" -> <<"evjob", "uplo">>                \* jobz: 0 EVNone 1 EVCompute
-      [] r \in {"Dsytrd", "Dorgtr", "Dpocon", "Dpbtrs", "Dpbtrf"} -> <<"uplo">>
+      [] r \in {"Dsytrd", "Dorgtr", "Dpocon", "Dpbtrs", "Dpbtrf", "Dsytd2", "Dlauu2", "Dlauum", "Dpbtf2", "Dpbcon"} -> <<"uplo">>
       [] r = "Dgeev" -> <<"levjob", "revjob">>             \* 0 None 1 Compute
       [] r = "Dtrcon" -> <<"norm2", "uplo", "diag">>       \* norm2: 0 MaxColumnSum 1 MaxRowSum
       [] r = "Dgecon" -> <<"norm2">>
-      [] r = "Dlansy" -> <<"norm4", "uplo">>               \* norm4: 0 MaxAbs 1 MaxColumnSum 2 MaxRowSum 3 Frobenius
-      [] r = "Dlange" -> <<"norm4">>
-      [] r = "Dlantr" -> <<"norm4", "uplo", "diag">>
+      [] r \in {"Dlansy", "Dlansb"} -> <<"norm4", "uplo">>   \* norm4: 0 MaxAbs 1 MaxColumnSum 2 MaxRowSum 3 Frobenius
+      [] r \in {"Dlange", "Dlanhs", "Dlangt", "Dlanst", "Dlangb"} -> <<"norm4">>
+      [] r \in {"Dlantr", "Dlantb"} -> <<"norm4", "uplo", "diag">>
+      [] r = "Dlascl" -> <<"mtype3">>                      \* 0 General 1 UpperTri 2 LowerTri (the band and Hessenberg types are not coded in gonum: not in the grid)
+      [] r \in {"Dlapmt", "Dlapmr"} -> <<"bool">>           \* forward: both values legal
+      [] r = "Dlasrt" -> <<"sort2">>                       \* 0 SortIncreasing 1 SortDecreasing
       [] r = "Dlacpy" -> <<"uplo3">>                       \* 0 Upper 1 Lower 2 All
       [] r = "Dlaset" -> <<"uploany">>                     \* any value is accepted (anything but Upper/Lower means the whole matrix)
       [] r = "Dorgbr" -> <<"genortho">>                    \* 0 GenerateQ 1 GeneratePT
@@ -73,11 +86,12 @@ FlagKinds(r) ==
       [] r = "Dormhr" -> <<"side", "trans2">>
       [] r = "Dtbtrs" -> <<"uplo", "trans3", "diag">>
       [] OTHER -> <<>>
-LegalCodes(kind) == CASE kind \in {"trans3", "svdjobu", "svdjobvt", "uplo3", "uploany"} -> {0, 1, 2}
+LegalCodes(kind) == CASE kind \in {"trans3", "svdjobu", "svdjobvt", "uplo3", "uploany", "mtype3"} -> {0, 1, 2}
                       [] kind = "norm4" -> {0, 1, 2, 3}
                       [] OTHER -> {0, 1}
 AllCodes(kind)   == CASE kind = "trans2" -> {0, 1, 2, BadFlag}
                       [] kind = "uploany" -> {0, 1, 2}
+                      [] kind = "bool" -> {0, 1}
                       [] OTHER -> LegalCodes(kind) \cup {BadFlag}
 
 DimNames(r) ==
@@ -94,8 +108,11 @@ DimNames(r) ==
       [] r \in {"Dorgbr", "Dormbr"} -> <<"m", "n", "k">>
       [] r = "Dormhr" -> <<"m", "n", "ilo", "ihi">>
       [] r \in {"Dpbtrs", "Dtbtrs"} -> <<"n", "kd", "nrhs">>
-      [] r = "Dpbtrf" -> <<"n", "kd">>
+      [] r \in {"Dpbtrf", "Dlansb", "Dlantb", "Dpbtf2", "Dpbcon"} -> <<"n", "kd">>
       [] r \in TriD -> <<"n", "nrhs">>
+      [] r \in TriN \cup VecN -> <<"n">>
+      [] r = "Dlangb" -> <<"m", "n", "kl", "ku">>
+      [] r = "Dlaswp" -> <<"n", "k1", "k2">>
 
 \* flag lookups by kind (0 when the routine has no such flag)
 FlagOf(r, p, kind) ==
@@ -112,15 +129,15 @@ Nw(r, p) == IF IsLeft(r, p) THEN Dim(r, p, "n") ELSE Dim(r, p, "m")    \* worksp
 \* documented range of dimension i given the flags and the other dimensions: <<lo, hi>> (hi = 99: none)
 DimRange(r, p, i) ==
     LET nm == DimNames(r)[i] IN
-    CASE r \in {"Dorgqr", "Dorg2r"} /\ nm = "n" -> <<0, Dim(r, p, "m")>>        \* n <= m
-      [] r \in {"Dorgqr", "Dorg2r"} /\ nm = "k" -> <<0, Dim(r, p, "n")>>        \* k <= n
-      [] r \in {"Dorglq", "Dorgl2"} /\ nm = "n" -> <<Max(0, Dim(r, p, "m")), 99>>   \* n >= m
-      [] r \in {"Dorglq", "Dorgl2"} /\ nm = "k" -> <<0, Dim(r, p, "m")>>        \* k <= m
+    CASE r \in OrgCol /\ nm = "n" -> <<0, Dim(r, p, "m")>>        \* n <= m
+      [] r \in OrgCol /\ nm = "k" -> <<0, Dim(r, p, "n")>>        \* k <= n
+      [] r \in OrgRow /\ nm = "n" -> <<Max(0, Dim(r, p, "m")), 99>>   \* n >= m
+      [] r \in OrgRow /\ nm = "k" -> <<0, Dim(r, p, "m")>>        \* k <= m
       [] r \in OrmQ /\ nm = "k" -> <<0, Nq(r, p)>>                               \* k <= order of Q
       [] r = "Dlarft" /\ nm = "k" -> <<1, IF Dim(r, p, "n") <= 0 THEN 99 ELSE Dim(r, p, "n")>>   \* 1 <= k (<= n)
       [] r = "Dlarfb" /\ nm = "k" -> <<0, Nq(r, p)>>                             \* k <= order of H
       \* Hessenberg reduction: 0 <= ilo <= max(0, n-1), min(ilo, n-1) <= ihi <= n-1 (n = 0: ilo = 0, ihi = -1)
-      [] r = "Dgehrd" /\ nm = "ilo" -> <<0, Max(0, Dim(r, p, "n") - 1)>>
+      [] r \in {"Dgehrd", "Dgehd2"} /\ nm = "ilo" -> <<0, Max(0, Dim(r, p, "n") - 1)>>
       [] r = "Dorghr" /\ nm = "ilo" -> <<0, Max(1, Dim(r, p, "n")) - 1>>
       [] r \in Hess /\ nm = "ihi" -> <<Min(Dim(r, p, "ilo"), Dim(r, p, "n") - 1), Dim(r, p, "n") - 1>>
       [] r = "Dormhr" /\ nm = "ilo" -> <<0, Max(1, Nq(r, p)) - 1>>
@@ -129,6 +146,8 @@ DimRange(r, p, i) ==
       [] r = "Dorgbr" /\ nm = "n" -> IF p.f[1] = 0 THEN <<0, Dim(r, p, "m")>> ELSE <<Max(0, Dim(r, p, "m")), 99>>
       [] r = "Dorgbr" /\ nm = "k" -> IF Dim(r, p, "m") = Dim(r, p, "n") THEN <<0, 99>>
                                      ELSE <<0, Min(Dim(r, p, "m"), Dim(r, p, "n"))>>
+      \* Dlaswp: rows k1 .. k2 of a matrix with at least k2+1 rows, 0 <= k1 <= k2
+      [] r = "Dlaswp" /\ nm = "k2" -> <<Max(0, Dim(r, p, "k1")), 99>>
       [] OTHER -> <<0, 99>>
 
 (********************************* operands **********************************)
@@ -142,9 +161,11 @@ Mats(r) ==
       [] r \in {"Dgels", "Dlacpy", "Dpbtrs", "Dtbtrs"} -> <<"a", "b">>
       [] r = "Dgesvd" -> <<"a", "u", "vt">>
       [] r = "Dgeev" -> <<"a", "vl", "vr">>
-      [] r \in (SqN \ {"Dgeev"}) \cup Hess \cup (GeMN \ {"Dgesvd", "Dlacpy"}) \cup {"Dorgbr", "Dpbtrf"} -> <<"a">>
+      [] r \in (SqN \ {"Dgeev"}) \cup Hess \cup (GeMN \ {"Dgesvd", "Dlacpy"})
+               \cup {"Dorgbr", "Dpbtrf", "Dlansb", "Dlantb", "Dlangb", "Dlaswp", "Dpbtf2", "Dpbcon"} -> <<"a">>
       [] r \in {"Dormbr", "Dormhr"} -> <<"a", "c">>
       [] r \in TriD -> <<"b">>
+      [] OTHER -> <<>>
 \* <<rows, columns>> of a matrix operand (<<0, 0>>: not referenced for these job flags; a band matrix with kd
 \* off-diagonals is stored as n rows of kd+1 elements)
 MatDims(r, p, o) ==
@@ -154,7 +175,7 @@ MatDims(r, p, o) ==
            IF o = "a" THEN <<Dim(r, p, "n"), Dim(r, p, "n")>> ELSE <<Dim(r, p, "n"), Dim(r, p, "nrhs")>>
       [] r \in {"Dormqr", "Dorm2r"} ->
            IF o = "a" THEN <<Nq(r, p), Dim(r, p, "k")>> ELSE <<Dim(r, p, "m"), Dim(r, p, "n")>>
-      [] r \in {"Dormlq", "Dorml2"} ->
+      [] r \in {"Dormlq", "Dorml2", "Dormr2"} ->
            IF o = "a" THEN <<Dim(r, p, "k"), Nq(r, p)>> ELSE <<Dim(r, p, "m"), Dim(r, p, "n")>>
       [] r = "Dlarft" ->
            IF o = "t" THEN <<Dim(r, p, "k"), Dim(r, p, "k")>>
@@ -188,12 +209,15 @@ MatDims(r, p, o) ==
       [] r = "Dormhr" -> IF o = "c" THEN <<Dim(r, p, "m"), Dim(r, p, "n")>> ELSE <<Nq(r, p), Nq(r, p)>>
       [] r \in BandS -> IF o = "a" THEN <<Dim(r, p, "n"), Dim(r, p, "kd") + 1>> ELSE <<Dim(r, p, "n"), Dim(r, p, "nrhs")>>
       [] r \in TriD -> <<Dim(r, p, "n"), Dim(r, p, "nrhs")>>
+      \* general band matrix: min(m, n+kl) stored rows of kl+ku+1 elements
+      [] r = "Dlangb" -> <<Min(Dim(r, p, "m"), Dim(r, p, "n") + Dim(r, p, "kl")), Dim(r, p, "kl") + Dim(r, p, "ku") + 1>>
+      [] r = "Dlaswp" -> <<Dim(r, p, "k2") + 1, Dim(r, p, "n")>>
 MatDesc(r, p, o) == LET rc == MatDims(r, p, o) IN Desc("ge", rc[1], rc[2], p.ld[o], 0, 0, 0, 0)
 
 \* float vectors (other than a workspace governed by lwork) and their documented minimum length
 Vecs(r) ==
-    CASE r \in {"Dgeqrf", "Dgelqf", "Dorgqr", "Dorglq", "Dormqr", "Dormlq"} -> <<"tau">>
-      [] r \in {"Dgeqr2", "Dgelq2", "Dorg2r", "Dorgl2", "Dorm2r", "Dorml2"} -> <<"tau", "work">>
+    CASE r \in {"Dgeqrf", "Dgelqf", "Dorgqr", "Dorglq", "Dormqr", "Dormlq", "Dgerqf", "Dorgql"} -> <<"tau">>
+      [] r \in {"Dgeqr2", "Dgelq2", "Dorg2r", "Dorgl2", "Dorm2r", "Dorml2", "Dorg2l", "Dorgr2", "Dormr2"} -> <<"tau", "work">>
       [] r = "Dlarft" -> <<"tau">>
       [] r = "Dlarf" -> <<"x", "work">>             \* x: the reflector vector v with increment incv
       [] r = "Dgesvd" -> <<"s">>
@@ -202,9 +226,14 @@ Vecs(r) ==
       [] r \in {"Dorgtr", "Dgehrd", "Dorghr", "Dgeqp3", "Dorgbr", "Dormbr", "Dormhr"} -> <<"tau">>
       [] r = "Dgeev" -> <<"wr", "wi">>
       [] r = "Dgebrd" -> <<"d", "e", "tauq", "taup">>
-      [] r \in {"Dlange", "Dlansy", "Dlantr", "Dtrcon", "Dgecon", "Dpocon"} -> <<"work">>
-      [] r = "Dgtsv" -> <<"dl", "d", "du">>
-      [] r = "Dptsv" -> <<"d", "e">>
+      [] r \in {"Dlange", "Dlansy", "Dlantr", "Dtrcon", "Dgecon", "Dpocon", "Dlansb", "Dlantb", "Dlanhs", "Dpbcon"} -> <<"work">>
+      [] r \in {"Dgtsv", "Dlangt"} -> <<"dl", "d", "du">>
+      [] r \in {"Dptsv", "Dlanst", "Dpttrf", "Dpttrs", "Dsterf"} -> <<"d", "e">>
+      [] r = "Dptcon" -> <<"d", "e", "work">>
+      [] r \in {"Dgeql2", "Dgerq2", "Dgehd2"} -> <<"tau", "work">>
+      [] r = "Dsytd2" -> <<"d", "e", "tau">>
+      [] r \in {"Drscl", "Dlassq", "Dlarfg"} -> <<"x">>
+      [] r = "Dlasrt" -> <<"d">>
       [] OTHER -> <<>>
 \* documented minimum lengths of the routines in Drv (job flags and min/max of the dimensions matter)
 VecMinDrv(r, p, o) ==
@@ -219,10 +248,20 @@ VecMinDrv(r, p, o) ==
       [] r = "Dorgbr" -> IF p.f[1] = 0 THEN Min(Dim(r, p, "m"), Dim(r, p, "k")) ELSE Min(n, Dim(r, p, "k"))
       [] r = "Dormbr" -> Min(Nq(r, p), Dim(r, p, "k"))
       [] r = "Dormhr" -> Nq(r, p) - 1
-      [] r = "Dlange" -> IF p.f[1] = 1 THEN n ELSE 0                 \* work only for the maximum column sum
-      [] r = "Dlansy" -> IF p.f[1] \in {1, 2} THEN n ELSE 0
-      [] r = "Dlantr" -> IF p.f[1] = 1 THEN n ELSE 0
-      [] r \in {"Dtrcon", "Dpocon"} -> 3 * n
+      \* the norm routines: "work must have length at least n when norm is MaxColumnSum (symmetric matrices: or
+      \* MaxRowSum), otherwise it is not referenced"
+      [] r \in {"Dlange", "Dlantr", "Dlantb", "Dlanhs"} -> IF p.f[1] = 1 THEN n ELSE 0
+      [] r \in {"Dlansy", "Dlansb"} -> IF p.f[1] \in {1, 2} THEN n ELSE 0
+      [] r \in {"Dlangt", "Dlanst", "Dpttrf", "Dpttrs", "Dsterf"} -> IF o = "d" THEN n ELSE n - 1
+      [] r = "Dptcon" -> IF o = "e" THEN n - 1 ELSE n
+      [] r = "Dgeql2" -> IF o = "tau" THEN Mn(r, p) ELSE n
+      [] r = "Dgerq2" -> IF o = "tau" THEN Mn(r, p) ELSE Dim(r, p, "m")
+      [] r = "Dgehd2" -> IF o = "tau" THEN n - 1 ELSE n
+      [] r = "Dsytd2" -> IF o = "d" THEN n ELSE n - 1
+      [] r \in {"Drscl", "Dlassq"} -> VecNeed(n, p.inc)
+      [] r = "Dlarfg" -> VecNeed(n - 1, p.inc)              \* the reflector of order n: alpha and the n-1 elements of x
+      [] r = "Dlasrt" -> n
+      [] r \in {"Dtrcon", "Dpocon", "Dpbcon"} -> 3 * n
       [] r = "Dgecon" -> 4 * n
       [] r = "Dgtsv" -> IF o = "d" THEN n ELSE n - 1
       [] r = "Dptsv" -> IF o = "d" THEN n ELSE n - 1
@@ -230,26 +269,34 @@ VecMin(r, p, o) ==
     CASE r \in Drv -> VecMinDrv(r, p, o)
       [] o = "tau" -> IF r \in QRf THEN Mn(r, p) ELSE Dim(r, p, "k")
       [] o = "work" ->
-           (CASE r \in {"Dgeqr2", "Dorg2r"} -> Dim(r, p, "n")
-              [] r \in {"Dgelq2", "Dorgl2"} -> Dim(r, p, "m")
-              [] r \in {"Dorm2r", "Dorml2", "Dlarf"} -> Nw(r, p))
+           (CASE r \in {"Dgeqr2", "Dorg2r", "Dorg2l"} -> Dim(r, p, "n")
+              [] r \in {"Dgelq2", "Dorgl2", "Dorgr2"} -> Dim(r, p, "m")
+              [] r \in {"Dorm2r", "Dorml2", "Dlarf", "Dormr2"} -> Nw(r, p))
       [] o = "x" -> VecNeed(Nq(r, p), p.inc)
-IVecs(r) == IF r \in LU THEN <<"ipiv">> ELSE IF r = "Dgeqp3" THEN <<"jpvt">>
-            ELSE IF r \in {"Dtrcon", "Dgecon", "Dpocon"} THEN <<"iwork">> ELSE <<>>
-IVecMin(r, p, o) == IF r \in {"Dgetrf", "Dgetf2"} THEN Mn(r, p) ELSE Dim(r, p, "n")
+IVecs(r) == IF r \in LU \cup {"Dlaswp"} THEN <<"ipiv">> ELSE IF r = "Dgeqp3" THEN <<"jpvt">>
+            ELSE IF r \in {"Dtrcon", "Dgecon", "Dpocon", "Dpbcon"} THEN <<"iwork">>
+            ELSE IF r \in {"Dlapmt", "Dlapmr"} THEN <<"k">> ELSE <<>>
+IVecMin(r, p, o) == IF r \in {"Dgetrf", "Dgetf2"} THEN Mn(r, p)
+                    ELSE IF r = "Dlaswp" THEN Dim(r, p, "k2") + 1      \* one entry per row 0 .. k2
+                    ELSE IF r = "Dlapmr" THEN Dim(r, p, "m")           \* a permutation of the rows
+                    ELSE Dim(r, p, "n")
 \* vectors whose length the documentation fixes exactly
 ExactNames == {"tau", "wr", "wi"}
 \* vectors whose length the documentation fixes exactly ("must have length k"): a longer slice is
 \* rejected by some routines and accepted by others - both are legal
-HasInc(r) == r = "Dlarf"
+HasInc(r) == r \in {"Dlarf", "Dlaswp", "Drscl", "Dlassq", "Dlarfg"}
+\* legal increments: Dlarf any but 0; Dlaswp "incX is 1 or -1, for other values Dlaswp will panic"; Drscl and
+\* Dlassq, Dlarfg positive (the reference routines return silently for incx <= 0; gonum documents a panic)
+IncLegal(r) == IF r = "Dlaswp" THEN {0 - 1, 1} ELSE IF r \in {"Drscl", "Dlassq", "Dlarfg"} THEN {1, 2} ELSE {0 - 2, 0 - 1, 1, 2}
+IncName(r) == IF r = "Dlarf" THEN "inc=0" ELSE "inc"
 
-HasLwork(r) == r \in {"Dgetri", "Dgeqrf", "Dgelqf", "Dorgqr", "Dorglq", "Dormqr", "Dormlq",
+HasLwork(r) == r \in {"Dgetri", "Dgeqrf", "Dgelqf", "Dorgqr", "Dorglq", "Dormqr", "Dormlq", "Dgerqf", "Dorgql",
                       "Dgels", "Dgesvd", "Dsyev", "Dsytrd", "Dorgtr", "Dgehrd", "Dorghr", "Dgeev", "Dgeqp3", "Dgebrd",
                       "Dorgbr", "Dormbr", "Dormhr"}
 MinLwork(r, p) ==
     CASE r = "Dgetri" -> Max(1, Dim(r, p, "n"))
-      [] r \in {"Dgeqrf", "Dorgqr"} -> Max(1, Dim(r, p, "n"))
-      [] r \in {"Dgelqf", "Dorglq"} -> Max(1, Dim(r, p, "m"))
+      [] r \in {"Dgeqrf", "Dorgqr", "Dorgql"} -> Max(1, Dim(r, p, "n"))
+      [] r \in {"Dgelqf", "Dorglq", "Dgerqf"} -> Max(1, Dim(r, p, "m"))
       [] r \in {"Dormqr", "Dormlq", "Dormbr", "Dormhr"} -> Max(1, Nw(r, p))
       [] r = "Dgels" -> Max(1, Mn(r, p) + Max(Mn(r, p), Dim(r, p, "nrhs")))
       [] r = "Dgesvd" -> IF Mn(r, p) <= 0 THEN 1
@@ -269,16 +316,17 @@ ZeroL(r, p) ==
     CASE r \in {"Dgetrf", "Dgetf2"} \cup QRf -> Mn(r, p) = 0
       [] r \in {"Dgetrs", "Dpotrs"} -> Dim(r, p, "n") = 0 \/ Dim(r, p, "nrhs") = 0
       [] r \in {"Dgesv", "Dgetri", "Dpotrf", "Dpotf2", "Dpotri", "Dtrtri", "Dtrti2", "Dtrtrs", "Dlarft"} -> Dim(r, p, "n") = 0
-      [] r \in {"Dorgqr", "Dorg2r"} -> Dim(r, p, "n") = 0
-      [] r \in {"Dorglq", "Dorgl2"} -> Dim(r, p, "m") = 0
+      [] r \in OrgCol -> Dim(r, p, "n") = 0
+      [] r \in OrgRow -> Dim(r, p, "m") = 0
       [] r \in OrmQ -> Dim(r, p, "m") = 0 \/ Dim(r, p, "n") = 0 \/ Dim(r, p, "k") = 0
       [] r \in {"Dlarfb", "Dlarf"} -> Dim(r, p, "m") = 0 \/ Dim(r, p, "n") = 0
       [] r = "Dgels" -> Mn(r, p) = 0 \/ Dim(r, p, "nrhs") = 0
-      [] r \in {"Dgesvd", "Dgeqp3", "Dgebrd", "Dlaset", "Dlantr"} -> Mn(r, p) = 0
-      [] r \in {"Dlacpy", "Dlange", "Dorgbr", "Dormbr"} -> Dim(r, p, "m") = 0 \/ Dim(r, p, "n") = 0
+      [] r \in {"Dgesvd", "Dgeqp3", "Dgebrd", "Dlaset", "Dlantr", "Dgeql2", "Dgerq2"} -> Mn(r, p) = 0
+      [] r \in {"Dlacpy", "Dlange", "Dorgbr", "Dormbr", "Dlascl", "Dlangb", "Dlapmt", "Dlapmr"} -> Dim(r, p, "m") = 0 \/ Dim(r, p, "n") = 0
       [] r = "Dormhr" -> Dim(r, p, "m") = 0 \/ Dim(r, p, "n") = 0 \/ Dim(r, p, "ihi") = Dim(r, p, "ilo")
-      [] r \in SqN \cup Hess \cup {"Dpbtrf", "Dtbtrs", "Dptsv"} -> Dim(r, p, "n") = 0
-      [] r \in {"Dpbtrs", "Dgtsv"} -> Dim(r, p, "n") = 0 \/ Dim(r, p, "nrhs") = 0
+      [] r = "Dlarfg" -> Dim(r, p, "n") \in {0, 1}          \* nothing to annihilate
+      [] r \in SqN \cup Hess \cup TriN \cup (VecN \ {"Dlarfg"}) \cup {"Dpbtrf", "Dtbtrs", "Dptsv", "Dlansb", "Dlantb", "Dlaswp", "Dpbtf2", "Dpbcon"} -> Dim(r, p, "n") = 0
+      [] r \in {"Dpbtrs", "Dgtsv", "Dpttrs"} -> Dim(r, p, "n") = 0 \/ Dim(r, p, "nrhs") = 0
 IsQuery(r, p) == HasLwork(r) /\ p.lwork = -1
 
 (********************************** clauses **********************************)
@@ -295,7 +343,7 @@ DimHiClauses(r, p) == IF UnspecHi(r) THEN {}
 Unspec(r, p) == UnspecHi(r) /\ \E j \in 1 .. Len(DimNames(r)) : p.d[j] > DimRange(r, p, j)[2]
 DimsOK(r, p) == DimLoClauses(r, p) = {} /\ DimHiClauses(r, p) = {}
 LdClauses(r, p) == {"ld" \o o : o \in {oo \in SeqToSet(Mats(r)) : p.ld[oo] < Max(1, MatDims(r, p, oo)[2])}}
-IncClauses(r, p) == {c \in {"inc=0"} : HasInc(r) /\ p.inc = 0}
+IncClauses(r, p) == {c \in {IncName(r)} : HasInc(r) /\ p.inc \notin IncLegal(r)}
 LworkClauses(r, p) ==
     IF ~HasLwork(r) THEN {}
     ELSE {c \in {"lwork"} : p.lwork # -1 /\ (p.lwk = "lo" \/ (p.lwk # "opt" /\ p.lwork < MinLwork(r, p)))}
@@ -314,6 +362,12 @@ ShortClauses(r, p) ==
 Hard(r, p) == FlagClauses(r, p) \cup DimLoClauses(r, p) \cup DimHiClauses(r, p) \cup LdClauses(r, p)
               \cup IncClauses(r, p) \cup LworkClauses(r, p) \cup ShortClauses(r, p)
 
+\* the storage extent the documentation gives for a matrix operand.  Dlangb: the documentation does not say whether the
+\* last stored band row must be complete (gonum asks for min(m, n+kl) full rows of ldab elements)
+DocNeed(r, p, o) == IF r = "Dlangb" THEN Max(0, MatDims(r, p, o)[1]) * p.ld[o] ELSE Need(MatDesc(r, p, o))
+\* routines documented as "x must have length N, otherwise the routine will panic": the length test may precede the
+\* quick return of a zero-sized problem (Dlaswp) or follow it (Dlapmt, Dlapmr, Dgehd2) - a longer slice is open there too
+LenFirst == {"Dlaswp", "Dlapmt", "Dlapmr", "Dgehd2"}
 \* open points of the documentation: both outcomes are legal
 \*  - a matrix slice covering the addressed extent but not the full storage extent (a matrix without columns)
 \*  - tau / ipiv longer than the documented length (some routines say "exactly", some "at least")
@@ -323,14 +377,15 @@ Soft(r, p) ==
     LET shapeButLd == FlagClauses(r, p) = {} /\ DimsOK(r, p)
         lenOf(o) == p.len[o]
         shortAny == {"len(" \o o \o ")" : o \in
-                       {oo \in SeqToSet(Mats(r)) : lenOf(oo) < Need(MatDesc(r, p, oo))}
+                       {oo \in SeqToSet(Mats(r)) : lenOf(oo) < DocNeed(r, p, oo)}
                        \cup {oo \in SeqToSet(Vecs(r)) : lenOf(oo) < VecMin(r, p, oo)}
                        \cup {oo \in SeqToSet(IVecs(r)) : lenOf(oo) < IVecMin(r, p, oo)}}
         longExact == {"len(" \o o \o ")>" : o \in
                        {oo \in SeqToSet(Vecs(r)) \cap ExactNames : lenOf(oo) > VecMin(r, p, oo)}
                        \cup {oo \in SeqToSet(IVecs(r)) : lenOf(oo) > IVecMin(r, p, oo)}}
     IN IF ~shapeButLd THEN {}
-       ELSE (IF ShapeOK(r, p) THEN (shortAny \ ShortClauses(r, p)) \cup (IF ZeroL(r, p) \/ IsQuery(r, p) THEN {} ELSE longExact)
+       ELSE (IF ShapeOK(r, p) THEN (shortAny \ ShortClauses(r, p))
+                                   \cup (IF (ZeroL(r, p) \/ IsQuery(r, p)) /\ r \notin LenFirst THEN {} ELSE longExact)
              ELSE {})
 
 \* in a workspace query the strides and the increment are not looked at by every routine
@@ -346,18 +401,18 @@ Expected(r, p) ==
 NoWriteOK(r, p) == Hard(r, p) = {} /\ (IsQuery(r, p) \/ (ZeroL(r, p) /\ r # "Dgels"))
 
 \* clauses that cannot be the only violated one (a negative m forces n > m, ...)
-NeverSole(r) == IF r \in {"Dorgqr", "Dorg2r"} THEN {"m<lo", "n<lo"} ELSE IF r \in {"Dorglq", "Dorgl2"} THEN {"m<lo"}
+NeverSole(r) == IF r \in OrgCol THEN {"m<lo", "n<lo"} ELSE IF r \in OrgRow THEN {"m<lo"}
                 ELSE IF r \in Hess THEN {"n<lo"} ELSE IF r = "Dorgbr" THEN {"m<lo", "n<lo"} ELSE {}
 ClausesOf(r) ==
-    ((SeqToSet(FlagKinds(r)) \ {"uploany"})
+    ((SeqToSet(FlagKinds(r)) \ {"uploany", "bool"})
     \cup ({DimNames(r)[i] \o "<lo" : i \in 1 .. Len(DimNames(r))} \ NeverSole(r)))
     \cup {DimNames(r)[i] \o ">hi" : i \in {j \in 1 .. Len(DimNames(r)) :
-            (r \in {"Dorgqr", "Dorg2r"} /\ DimNames(r)[j] \in {"n", "k"})
-            \/ (r \in {"Dorglq", "Dorgl2"} /\ DimNames(r)[j] = "k") \/ (r \in OrmQ /\ DimNames(r)[j] = "k")
+            (r \in OrgCol /\ DimNames(r)[j] \in {"n", "k"})
+            \/ (r \in OrgRow /\ DimNames(r)[j] = "k") \/ (r \in OrmQ /\ DimNames(r)[j] = "k")
             \/ (r \in Hess \cup {"Dormhr"} /\ DimNames(r)[j] \in {"ilo", "ihi"})
             \/ (r = "Dorgbr" /\ DimNames(r)[j] \in {"n", "k"})}}
     \cup {"ld" \o o : o \in SeqToSet(Mats(r))}
-    \cup {c \in {"inc=0"} : HasInc(r)}
+    \cup {c \in {IncName(r)} : HasInc(r)}
     \cup {c \in {"lwork", "len(work)"} : HasLwork(r)}
     \cup {"len(" \o o \o ")" : o \in SeqToSet(Mats(r)) \cup SeqToSet(Vecs(r)) \cup SeqToSet(IVecs(r))}
 
